@@ -31,6 +31,8 @@ type vfConn struct {
 	closed  bool
 	noHalf  bool // CloseWrite/CloseRead report an error
 	log     *[]string
+	slowWriteAt int  // index of the write that takes a long time (-1: none)
+	pastDeadline bool // a read deadline was set that had already expired
 }
 
 var vfErrIO = errors.New("vf: i/o error")
@@ -61,6 +63,9 @@ func (c *vfConn) Read(p []byte) (int, error) {
 func (c *vfConn) Write(p []byte) (int, error) {
 	c.ev("W")
 	k := c.nwrites
+	if k == c.slowWriteAt && c.slowWriteAt >= 0 {
+		nd.AdvanceClock(30) // the peer is slow to take the data: longer than the idle time-out
+	}
 	c.nwrites++
 	if c.closed {
 		return 0, vfErrIO
@@ -94,7 +99,13 @@ func (c *vfConn) CloseRead() error {
 func (c *vfConn) LocalAddr() net.Addr                { return nil }
 func (c *vfConn) RemoteAddr() net.Addr               { return nil }
 func (c *vfConn) SetDeadline(t time.Time) error      { c.ev("D"); return nil }
-func (c *vfConn) SetReadDeadline(t time.Time) error  { c.ev("RD"); return nil }
+func (c *vfConn) SetReadDeadline(t time.Time) error {
+	c.ev("RD")
+	if t.Before(time.Now()) {
+		c.pastDeadline = true
+	}
+	return nil
+}
 func (c *vfConn) SetWriteDeadline(t time.Time) error { c.ev("WD"); return nil }
 
 type vfLn struct{}
@@ -105,7 +116,7 @@ func (vfLn) Drain() error    { return nil }
 func (vfLn) Stop() error     { return nil }
 
 func vfNewTCPProc(policy service.LoadBalancePolicy, hosts ...*host.Host) *tcpProc {
-	d := time.Second
+	d := 10 * nd.Unit()
 	cfg := &service.Config{IdleTimeout: &d, ConnectTimeout: &d, LbPolicy: policy}
 	return &tcpProc{
 		Logger:  log.New("vf"),
@@ -184,7 +195,7 @@ type vfIdleConn struct {
 }
 
 func vfNewIdleConn(name string, log *[]string) *vfIdleConn {
-	return &vfIdleConn{vfConn: vfConn{name: name, failAt: -1, log: log}, closedCh: make(chan struct{}), release: make(chan struct{})}
+	return &vfIdleConn{vfConn: vfConn{name: name, failAt: -1, slowWriteAt: -1, log: log}, closedCh: make(chan struct{}), release: make(chan struct{})}
 }
 
 func (c *vfIdleConn) Read(p []byte) (int, error) {
